@@ -4,8 +4,8 @@ package main
 //
 // The real subscriptionclient.Client talks graphql-transport-ws to a scripted in-process upstream (httptest +
 // coder/websocket).  A scenario is a sequence of subscribe / upstream message / unsubscribe / connection drop operations
-// over 2–6 subscribers and four option tuples that differ in exactly one component of the connection key (path, header,
-// init payload).  Every handler call is recorded; the Lean model Proto.WsClient runs the same sequence and must
+// over 2–6 subscribers and five option tuples that differ from the first in exactly one component of the connection key (path, header
+// value, a second value of the same header, init payload).  Every handler call is recorded; the Lean model Proto.WsClient runs the same sequence and must
 // predict, per subscriber, exactly the delivered events in order, the number of upstream connections ever opened and
 // the connections alive at the end.  Two race scenarios (cancel while a shared dial is in flight; last unsubscribe
 // against a new subscribe) are judged by model-independent oracles.
@@ -227,6 +227,9 @@ func c18Options(base string, k int) common.Options {
 		o.Headers = http.Header{"X-Tuple": []string{"h1"}}
 	case 3:
 		o.InitPayload = map[string]any{"token": "i1"}
+	case 4:
+		// a multi-valued header with the same first value
+		o.Headers = http.Header{"X-Tuple": []string{"h0", "second-value"}}
 	}
 	return o
 }
@@ -240,7 +243,7 @@ func c18GenScenario(r *rand.Rand) *c18Scenario {
 		s := r.Intn(sc.Subscribers)
 		switch {
 		case state[s] == 0:
-			sc.Ops = append(sc.Ops, c18Op{Op: "subscribe", Sub: s, Key: r.Intn(4) % (1 + r.Intn(4))})
+			sc.Ops = append(sc.Ops, c18Op{Op: "subscribe", Sub: s, Key: r.Intn(5) % (1 + r.Intn(5))})
 			state[s] = 1
 		default:
 			switch x := r.Intn(12); {
@@ -444,7 +447,7 @@ func c18RaceCancelDuringDial(run *Run, k int) {
 	ctx, cancel := context.WithCancel(context.Background())
 	defer cancel()
 	client := subscriptionclient.New(ctx, subscriptionclient.Config{})
-	opts := c18Options(up.srv.URL, k%4)
+	opts := c18Options(up.srv.URL, k%5)
 	ctxA, cancelA := context.WithCancel(context.Background())
 	errA, errB := make(chan error, 1), make(chan error, 1)
 	var gotB []string
@@ -495,7 +498,7 @@ func c18RaceLastUnsubscribe(run *Run, k int) {
 	ctx, cancel := context.WithCancel(context.Background())
 	defer cancel()
 	client := subscriptionclient.New(ctx, subscriptionclient.Config{})
-	opts := c18Options(up.srv.URL, k%4)
+	opts := c18Options(up.srv.URL, k%5)
 	for i := 0; i < 20; i++ {
 		nameA, nameB := fmt.Sprintf("s%d", 2*i), fmt.Sprintf("s%d", 2*i+1)
 		cA, err := client.Subscribe(context.Background(), &common.Request{Query: "subscription { " + nameA + " }"}, opts, func(m *common.Message) {})
@@ -539,7 +542,7 @@ func c18IdleReuse(run *Run, k int) {
 	defer cancel()
 	idle := 15 * time.Millisecond
 	client := subscriptionclient.New(ctx, subscriptionclient.Config{WSIdleTimeout: idle})
-	opts := c18Options(up.srv.URL, k%4)
+	opts := c18Options(up.srv.URL, k%5)
 	in := map[string]any{"idle": "reuse", "tuple": k % 4, "idleTimeoutMs": 15}
 	sub := func(name string) func() {
 		c, err := client.Subscribe(context.Background(), &common.Request{Query: "subscription { " + name + " }"}, opts, func(m *common.Message) {})
@@ -580,7 +583,7 @@ func c18IdleReuse(run *Run, k int) {
 func runC18(run *Run, replay string) Spec {
 	spec := Spec{
 		Level:       "model_checking",
-		Rule:        "scenarios of 8–32 operations (subscribe with one of four option tuples that differ in one key component, upstream data / error / complete per subscription, unsubscribe, connection drop) over 2–6 subscribers against a scripted graphql-transport-ws upstream: per subscriber the handler calls equal the Lean model's delivered events in order; the upstream accepted exactly the model's number of connections; the connections alive at the end are those that still carry a subscription; after everybody unsubscribed none is left. Plus two race scenarios (cancel while a shared dial is being initialised; last unsubscribe against a new subscribe) and an idle-period scenario (reuse while idle; an earlier idle timer firing while in use; closed after the last subscription). non-trivial = scenarios with at least two subscribers on one connection; distinct = distinct scenarios",
+		Rule:        "scenarios of 8–32 operations (subscribe with one of five option tuples that differ in one key component (path, header value, second value of a header, init payload), upstream data / error / complete per subscription, unsubscribe, connection drop) over 2–6 subscribers against a scripted graphql-transport-ws upstream: per subscriber the handler calls equal the Lean model's delivered events in order; the upstream accepted exactly the model's number of connections; the connections alive at the end are those that still carry a subscription; after everybody unsubscribed none is left. Plus two race scenarios (cancel while a shared dial is being initialised; last unsubscribe against a new subscribe) and an idle-period scenario (reuse while idle; an earlier idle timer firing while in use; closed after the last subscription). non-trivial = scenarios with at least two subscribers on one connection; distinct = distinct scenarios",
 		TrustedBase: []string{"Lean model GqlVerif.Proto.WsClient (one action per critical section; theorems in Props.C18)", "the scripted upstream (httptest + coder/websocket) and the recording handlers", "loopback TCP, coder/websocket, the Go scheduler"},
 		Assumptions: []string{"scenario operations are issued one after the other (each waits for its effect); the interleavings inside getOrDial and removeSub are only exercised by the two race scenarios", "SSE transport, the legacy graphql-ws subprotocol and ping timeouts are not exercised; an idle period > 0 only by one reuse scenario", "connection keys (xxhash of endpoint, subprotocol, headers, init payload) are collision free"},
 	}
